@@ -391,6 +391,16 @@ def trace_path_sites(prog, fi, pname, depth=0, seen=None, defined_at=None):
             continue
         if name in HARMLESS_SINKS or name in PASS_THROUGH:
             continue
+        if name in ("os.replace", "os.rename", "shutil.move") and len(call.args) == 2 and call.args[1] is expr and isinstance(call.args[0], ast.Name):
+            # written under another name and moved onto the trace path: the openers of that name are the trace's openers
+            src = call.args[0].id
+            stores = [m for m in ast.walk(fi.node) if isinstance(m, ast.Name) and m.id == src and isinstance(m.ctx, ast.Store)]
+            if len(stores) != 1 or src in fi.params:
+                raise AnalysisError("%s moves %s onto the trace path, a name bound %d times" % (fi.qualname, src, len(stores)))
+            sites += trace_path_sites(prog, fi, src, depth, seen, defined_at=stores[0])
+            continue
+        if name in ("os.replace", "os.rename", "shutil.move") and len(call.args) == 2 and call.args[0] is expr and defined_at is not None and (fi.qualname, ast.unparse(call.args[1])) in seen:
+            continue  # the other end of the move above
         callee = resolve_callee(prog, call, fi.module)
         if callee is None:
             raise AnalysisError("the trace path is handed to %s in %s, which is neither a repository function nor a recognised opener" % (name or u(call.func), fi.qualname))
@@ -415,9 +425,9 @@ def _file_sites(prog, fi, bound, depth=0, seen=None):
     """File reads / writes in `fi` and the repository functions it calls (depth <= 2).  `bound`: local names that
     hold the trace path unchanged.  Yields (function, call, 'r'|'w', path expression, is_trace_path)."""
     seen = seen if seen is not None else set()
-    if fi.qualname in seen or depth > 2:
+    if (fi.qualname, frozenset(bound)) in seen or depth > 2:
         return []
-    seen.add(fi.qualname)
+    seen.add((fi.qualname, frozenset(bound)))
     bound = set(bound)
     for n in ast.walk(fi.node):  # aliases of the path through pass-through calls
         if isinstance(n, ast.Assign) and len(n.targets) == 1 and isinstance(n.targets[0], ast.Name):
@@ -425,6 +435,7 @@ def _file_sites(prog, fi, bound, depth=0, seen=None):
             if isinstance(v, ast.Name) and v.id in bound:
                 bound.add(n.targets[0].id)
     out = []
+    moved_in = set()
 
     def is_trace(e):
         e = strip_pass_through(e, fi.module)
@@ -442,7 +453,15 @@ def _file_sites(prog, fi, bound, depth=0, seen=None):
             out.append((fi, c, "w", path, is_trace(path)))
             continue
         if name in PATH_WRITERS and c.args:
-            out.append((fi, c, "w", c.args[-1] if name.startswith(("shutil", "os.")) else c.args[0], is_trace(c.args[0])))
+            if name.startswith(("shutil", "os.")):  # (source, destination): the file that appears is the destination
+                if len(c.args) == 2:
+                    out.append((fi, c, "w", c.args[1], is_trace(c.args[1])))
+                    if is_trace(c.args[1]) and name in ("shutil.move", "os.rename", "os.replace"):
+                        moved_in.add(ast.dump(c.args[0]))
+                else:
+                    out.append((fi, c, "w", c.args[-1], False))
+            else:
+                out.append((fi, c, "w", c.args[0], is_trace(c.args[0])))
             continue
         if name in PATH_READERS and c.args:
             out.append((fi, c, "r", c.args[0], is_trace(c.args[0])))
@@ -457,6 +476,9 @@ def _file_sites(prog, fi, bound, depth=0, seen=None):
                 if k.arg and is_trace(k.value):
                     inner.add(k.arg)
             out += _file_sites(prog, callee, inner, depth + 1, seen)
+    # write-aside-then-rename: a file written under another name and moved onto the trace path in the same function
+    # is the trace itself once the step returns
+    out = [(f, c, rw, path, ok or (rw == "w" and f is fi and ast.dump(path) in moved_in)) for f, c, rw, path, ok in out]
     return out
 
 
@@ -1030,6 +1052,12 @@ SELFTEST = [
     {"name": "F3-cluster-table-in-a-second-file", "kind": "break", "rule": "F3", "file": _PT, "old": _W_OLD, "new": _W_OLD + "    if cluster_file is not None:\n        pd.read_csv(cluster_file, sep=\"\\t\").to_csv(\"{}.clusters.tsv\".format(out_file), sep=\"\\t\")\n"},
     {"name": "F3-reader-takes-data-from-a-sidecar", "kind": "break", "rule": "F3", "file": _PT, "old": _MAP_OLD, "new": _MAP_OLD.replace("    data = results[0][\"data\"]\n", "    data = results[0][\"data\"]\n    if os.path.exists(in_file + \".clusters.tsv\"):\n        results[0][\"clusters\"] = pd.read_csv(in_file + \".clusters.tsv\", sep=\"\\t\")\n")},
     {"name": "benign-F3-path-through-str", "kind": "benign", "file": _PT, "old": _W_OLD, "new": "    target = str(out_file)\n    with gzip.GzipFile(target, mode=\"wb\") as fh:\n        pickle.dump(results, fh)\n"},
+    {"name": "F3-previous-trace-moved-aside-while-writing", "kind": "break", "rule": "F3", "edits": [
+        {"file": _PT, "old": "import gzip\nimport pickle\n", "new": "import gzip\nimport os\nimport pickle\n"},
+        {"file": _PT, "old": _W_OLD, "new": "    if os.path.exists(out_file):\n        os.replace(out_file, str(out_file) + \".bak\")\n" + _W_OLD}]},
+    {"name": "benign-F3-written-aside-then-renamed", "kind": "benign", "edits": [
+        {"file": _PT, "old": "import gzip\nimport pickle\n", "new": "import gzip\nimport os\nimport pickle\n"},
+        {"file": _PT, "old": _W_OLD, "new": "    partial = \"{}.partial\".format(out_file)\n    with gzip.GzipFile(partial, mode=\"wb\") as fh:\n        pickle.dump(results, fh)\n    os.replace(partial, out_file)\n"}]},
     # ---- breaking: writer
     {"name": "F1-dump-per-chain-in-loop", "kind": "break", "rule": "F1", "file": _PT, "old": _W_OLD,
      "new": "    with gzip.GzipFile(out_file, mode=\"wb\") as fh:\n        for chain_num, chain_result in results.items():\n            pickle.dump({chain_num: chain_result}, fh)\n"},
